@@ -182,6 +182,9 @@ func (s *Storer) UseRememberToken(_ context.Context, pid, token string) error {
 	toks := s.db().Tokens[pid]
 	for i, t := range toks {
 		if t == token {
+			if !s.S.Conc {
+				s.S.UsedTokens = append(s.S.UsedTokens, token)
+			}
 			n := append(append([]string(nil), toks[:i]...), toks[i+1:]...)
 			if len(n) == 0 {
 				delete(s.db().Tokens, pid)
